@@ -6,7 +6,7 @@ from gencheck import *
 
 def run(tier):
     C = Check('C16', tier)
-    C.prove('Properties/C16.v')
+    C.prove('Properties/C16.v', bridges={'Model/Recover.v': []})
     C.cov['tie']['protocol_code_generator + generated code'] = 'correspondence-only: real generator + generated serializers on enumerated single-violation mutants; reference Model/Elab.v + Model/Ser.v'
     quick = tier == 'quick'
     trees, rng = build_trees(C, 24 if quick else 250)
@@ -33,8 +33,10 @@ def run(tier):
                     nm += 1
                     kk = ('None' if '= None' in d else 'case-data' if '_data' in d.split('->')[-1] else 'length' if ('length' in d or 'elements' in d) else 'integer')
                     kinds[kk] = kinds.get(kk, 0) + 1
-        entries.append(dict(name=t['name'], tree=t['tree'], jobs=jobs))
+        entries.append(dict(name=t['name'], tree=t['tree'], jobs=jobs, want_sources=True))
     run_entries(C, runner, entries)
+    recover_stream(C, entries, 'c16')
+    C.cov['tie']['generated classes (structure)'] = ('translation validation: tools/gen2instr.py recovers the instruction lists of every generated serialize / deserialize / __init__ from the SOURCE TEXT (fail-closed) and Model/Recover.v compares them with elab of the same tree (vm_compute): the theorems about the elaborated instruction lists apply to the code as emitted, for all objects and bytes')
     # ---- oracle: every declaration-violating mutant must raise SerializationError or ValueError
     nref = nconstr = 0
     for e in entries:
